@@ -520,13 +520,14 @@ func builtinModels() map[string]modelFn {
 	}
 
 	// ----- mcache -----
+	// mcache: size-classed free lists that re-issue freed blocks (LIFO), so a block released too
+	// early really is handed out again and a stale slice into it sees the new contents
 	m["github.com/bytedance/gopkg/lang/mcache.Malloc"] = func(e *Engine, st *State, c *callCtx) {
 		n := e.argInt(st, c.args[0], "mcache.Malloc size")
 		cp := n
 		if extra, ok := c.args[1].(SliceVal); ok && extra.len > 0 {
 			cp = e.argInt(st, e.sliceSlots(st, extra)[0], "mcache.Malloc cap")
 		}
-		// capacity is rounded up to a power of two
 		p := 1
 		for p < cp {
 			p <<= 1
@@ -534,10 +535,33 @@ func builtinModels() map[string]modelFn {
 		if cp == 0 {
 			p = 0
 		}
-		// contents of recycled memory are arbitrary: model as fresh symbolic? keep zero (documented)
+		key := -(p + 1)
+		if l := st.pools[key]; len(l) > 0 {
+			v := l[len(l)-1].(SliceVal)
+			np := map[int][]Value{}
+			for k, vv := range st.pools {
+				np[k] = vv
+			}
+			np[key] = append([]Value(nil), l[:len(l)-1]...)
+			st.pools = np
+			e.finish(st, c, SliceVal{obj: v.obj, off: 0, len: n, cap: p, esz: 1})
+			return
+		}
 		e.finish(st, c, e.makeSlice(st, types.Typ[types.Uint8], n, p))
 	}
-	m["github.com/bytedance/gopkg/lang/mcache.Free"] = nop
+	m["github.com/bytedance/gopkg/lang/mcache.Free"] = func(e *Engine, st *State, c *callCtx) {
+		b := c.args[0].(SliceVal)
+		if b.obj > 0 && b.off == 0 && b.cap > 0 && b.cap&(b.cap-1) == 0 {
+			key := -(b.cap + 1)
+			np := map[int][]Value{}
+			for k, vv := range st.pools {
+				np[k] = vv
+			}
+			np[key] = append(append([]Value(nil), st.pools[key]...), b)
+			st.pools = np
+		}
+		e.finish(st, c, nil)
+	}
 
 	registerIntrinsics(m)
 	return m
